@@ -677,7 +677,10 @@ impl World for BddWorld {
             w[k] = if c.below(5) == 0 { 0 } else { base[k] * (1 + c.below(3) as u32) };
         }
         w[K_VAR as usize] = w[K_VAR as usize].max(4);
-        let len = 10 + o.below(if thorough { 300 } else { 140 });
+        // one run in 300 is a marathon: tens of thousands of operations on ONE builder (counters, statistics,
+        // caches and tables that have seen many growths and overwrites)
+        let marathon = c.below(300) == 0;
+        let len = if marathon { 20_000 + o.below(60_000) } else { 10 + o.below(if thorough { 300 } else { 140 }) };
         let mut ops = Vec::new();
         for _ in 0..len {
             let caller = s.below(ncallers) as u8;
